@@ -30,7 +30,7 @@ RULE = ("cases = (poses, selector, delta, tol/rel_tol, unit, all_pairs); exact-g
         "margin-filtered; non-trivial = at least one pair selected and at least one candidate pose/pair rejected, or a "
         "refusal with >= 3 poses; distinct by content hash")
 
-MODELLED = ["evo/core/filters.py:filter_pairs_by_index", "evo/core/filters.py:filter_pairs_by_path",
+MODELLED = ["evo/core/metrics.py:RPE.__init__", "evo/core/filters.py:filter_pairs_by_index", "evo/core/filters.py:filter_pairs_by_path",
             "evo/core/filters.py:filter_pairs_by_angle", "evo/core/metrics.py:id_pairs_from_delta",
             "evo/core/geometry.py:accumulated_distances"]
 TINY = Fraction(1, 10 ** 9)
@@ -267,16 +267,49 @@ def run_impl(case):
                 r = filters.filter_pairs_by_path(poses, case["delta"], case["t"], allp)
             elif fn == "angle":
                 r = filters.filter_pairs_by_angle(poses, case["delta"], case["t"], bool(case.get("deg")), allp)
+            elif case.get("via") == "rpe":
+                r = run_rpe(case, poses)
             else:
                 r = metrics.id_pairs_from_delta(poses, case["delta"], Unit[UNITS[case["unit"]]], case["t"], allp)
-        out["pairs"] = [(int(i), int(j)) for i, j in r]
-        out["ints"] = all(float(i) == int(i) and float(j) == int(j) for i, j in r)
+        if case.get("via") == "rpe":
+            out["ends"] = [int(j) for j in r[0]]
+            out["nerr"] = r[1]
+            out["ints"] = all(float(j) == int(j) for j in r[0])
+            out["pairs"] = None
+        else:
+            out["pairs"] = [(int(i), int(j)) for i, j in r]
+            out["ints"] = all(float(i) == int(i) and float(j) == int(j) for i, j in r)
     except filters.FilterException:
         out["pairs"] = "E_FILTER"
+        out["ends"] = "E_FILTER"
     if uses(case)[0] and len(poses) >= 1:
         xyz = np.array([p[:3, 3] for p in poses])
         out["acc"] = [float(x) for x in geometry.accumulated_distances(xyz)]
     return out
+
+
+def decoy_poses(case):
+    """a different trajectory with the same number of poses (the one the pairs must NOT be taken from)"""
+    d = {"pos": [[2.0 * x + 1.0 for x in p] for p in case["pos"]]}
+    if "rk" in case:
+        d["rk"] = [3 * k + 1 for k in case["rk"]]
+        d["axis"] = (case.get("axis", 2) + 1) % 3
+    return build_poses(d)
+
+
+def run_rpe(case, poses):
+    """the class route: metrics.RPE(...).process_data((ref, est)); observable: delta_ids (pair ends)"""
+    from evo.core import metrics
+    from evo.core.units import Unit
+    from evo.core.trajectory import PosePath3D
+    kw = dict(pose_relation=metrics.PoseRelation.translation_part, delta=case["delta"],
+              delta_unit=Unit[UNITS[case["unit"]]], all_pairs=case["all"], pairs_from_reference=bool(case.get("from_ref")))
+    if not case.get("t_omitted"):
+        kw["rel_delta_tol"] = case["t"]
+    sel, other = PosePath3D(poses_se3=poses), PosePath3D(poses_se3=decoy_poses(case))
+    m = metrics.RPE(**kw)
+    m.process_data((sel, other) if case.get("from_ref") else (other, sel))
+    return list(m.delta_ids), int(len(m.error))
 
 
 def model_lines(case, P):
@@ -320,7 +353,16 @@ def judge(ctx, case, P, impl, outs):
         b = Fraction(180) if P["deg"] else P["pi"]
         if sl > 0 and (abs(P["delta"] - b) <= sl * 200 or abs(P["delta"]) <= sl):
             comparable = False
-    if comparable:
+    rpe = case.get("via") == "rpe"
+    if rpe:
+        model_ends = model if model == "E_FILTER" else [j for _, j in model]
+        if comparable and impl["ends"] != model_ends:
+            ctx.mismatch(case, f"RPE(delta_unit={case['unit']}, rel_delta_tol={'omitted' if case.get('t_omitted') else case['t']}, "
+                               f"all_pairs={allp}, pairs_from_reference={bool(case.get('from_ref'))}).delta_ids differ from idPairsFromDelta",
+                         impl["ends"], model_ends)
+        if not comparable:
+            ctx.skipped += 1
+    elif comparable:
         if impl["pairs"] != model:
             ctx.mismatch(case, f"{fn}{'/' + case['unit'] if fn == 'delta' else ''} all_pairs={allp}: evo differs from the model",
                          impl["pairs"], model)
@@ -337,9 +379,14 @@ def judge(ctx, case, P, impl, outs):
                 if abs(frac(x) - y) > tol:
                     ctx.mismatch(case, f"accumulated_distances[{k}] differs from accDist", x, float(y))
                     break
-    oracle(ctx, case, P, impl)
+    if rpe:
+        oracle_rpe(ctx, case, P, impl)
+    else:
+        oracle(ctx, case, P, impl)
     # ---- coverage
-    key = fn + (":" + case["unit"] if fn == "delta" else "") + (":all" if allp else ":consec")
+    key = ("rpe" if rpe else fn) + (":" + case["unit"] if fn == "delta" else "") + (":all" if allp else ":consec")
+    if rpe:
+        ctx.count("dist", "rpe:rel_delta_tol=" + ("omitted" if case.get("t_omitted") else repr(case["t"])))
     ctx.count("dist", case["kind"] + ":" + key)
     ctx.count("dist", "n=%s" % (P["n"] if P["n"] <= 8 else "9-100" if P["n"] <= 100 else ">100"))
     if model == "E_FILTER":
@@ -436,6 +483,112 @@ def oracle(ctx, case, P, impl):
         a = impl["acc"]
         if len(a) != n or a[0] != 0.0 or any(abs(frac(x) - y) > sl for x, y in zip(a, acc)):
             ctx.fail(case, "accumulated-distances", f"{a[:6]} vs {[float(x) for x in acc[:6]]}", tags)
+
+
+class Probe:
+    """collects oracle failures instead of reporting them"""
+    def __init__(self):
+        self.fails = []
+
+    def fail(self, case, clause, detail, tags=None):
+        self.fails.append((clause, detail))
+
+
+def oracle_rpe(ctx, case, P, impl):
+    """the property sentence on the pair *ends* reported by RPE.delta_ids, with the REQUESTED tolerance
+    (omitted = the documented default 0.1)"""
+    allp, n, sl, u = case["all"], P["n"], P["sl"], case["unit"]
+    ends = impl["ends"]
+    refused = ends == "E_FILTER"
+    tags = {"fn": "rpe", "all_pairs": allp, "unit": u}
+    tolname = "omitted" if case.get("t_omitted") else case["t"]
+    if u == "other":
+        if not refused:
+            ctx.fail(case, "unsupported-unit-accepted", str(ends)[:80], tags)
+        return
+    delta = P["delta"]
+    if u in ("rad", "deg"):
+        bound = Fraction(180) if P["deg"] else P["pi"]
+        if delta < sl or delta > bound - sl * 200:
+            if not refused and (delta < -sl or delta > bound + sl * 200):
+                ctx.fail(case, "angle-delta-out-of-range-accepted", f"delta={float(delta)}", tags)
+            return
+    if not refused:
+        if not impl.get("ints", True) or any(not (0 < j < n) for j in ends):
+            ctx.fail(case, "bounds", f"pair ends {ends[:8]} with N={n}", tags)
+            return
+        if impl.get("nerr") != len(ends):
+            ctx.fail(case, "one-error-per-pair", f"{impl.get('nerr')} error values for {len(ends)} pairs", tags)
+        if not ends:
+            ctx.fail(case, "empty-result-not-refused", "RPE.process_data selected no pair without FilterException", tags)
+    elist = [] if refused else ends
+    empty_ok = None
+    if u == "f":
+        d = int(delta)
+        want = [i + d for i in range(n) if i + d < n] if allp else [(m + 1) * d for m in range(n) if (m + 1) * d < n]
+        if elist != want and not (refused and not want):
+            ctx.fail(case, "frames-all-pairs" if allp else "frames-chain", f"pair ends {elist[:8]} want {want[:8]}", tags)
+        empty_ok = not want
+    elif not allp:
+        if u == "m":
+            acc, d = prefix(P["steps"]), delta
+        else:
+            acc, d = prefix(P["cang"]), model_unit_thresholds(case, P)[0]
+        if elist:
+            first = None
+            for s0 in range(0, elist[0]):
+                pr = Probe()
+                oracle_consec(pr, case, tags, [(s0, elist[0])] + list(zip(elist, elist[1:])), acc, d, sl, n)
+                if not pr.fails:
+                    first = None
+                    break
+                first = first or pr.fails[0]
+            else:
+                first = first or ("bounds", "first pair end 0")
+            if first:
+                ctx.fail(case, first[0], f"pair ends {elist[:8]}: {first[1]}", tags)
+            empty_ok = False
+        else:
+            empty_ok = oracle_consec(Probe(), case, tags, [], acc, d, sl, n)
+    elif u == "m":
+        acc = prefix(P["steps"])
+        T = delta * P["t"]
+        want_sets, unclear = [], False
+        for i in range(n - 1):
+            vals = [abs(acc[k] - acc[i] - delta) for k in range(i + 1, n)]
+            best = min(vals)
+            if best <= T - sl and T - sl >= 0:
+                want_sets.append((i, {i + 1 + k for k, v in enumerate(vals) if v <= best + sl}))
+            elif best <= T + sl:
+                unclear = True
+        if not unclear:
+            ok = len(elist) == len(want_sets) and all(j in w for j, (_, w) in zip(elist, want_sets))
+            if not ok and not (refused and not want_sets):
+                ctx.fail(case, "path-all-pairs-within-requested-tolerance",
+                         f"rel_delta_tol={tolname} delta={float(delta)}: pair ends {elist[:8]}, but the poses with a partner "
+                         f"within delta*tolerance are {[i for i, _ in want_sets][:8]} with closest partners {[sorted(w) for _, w in want_sets][:8]}", tags)
+            empty_ok = not want_sets
+    else:
+        d, t = model_unit_thresholds(case, P)
+        lo, hi = d - t, d + t
+        must, may, k = [], [], 0
+        for i in range(n - 1):
+            for j in range(i + 1, n):
+                a = P["tri"][k]
+                k += 1
+                if lo + sl <= a <= hi - sl:
+                    must.append(j)
+                if lo - sl <= a <= hi + sl:
+                    may.append(j)
+        if must == may:
+            if elist != must and not (refused and not must):
+                ctx.fail(case, "angle-all-pairs-within-requested-tolerance",
+                         f"rel_delta_tol={tolname}: pair ends {elist[:8]}, pairs in the band delta*(1 +- tolerance) end at {must[:8]}", tags)
+            empty_ok = not must
+    if refused and empty_ok is False:
+        ctx.fail(case, "refused-although-pairs-exist", f"delta={float(delta)} unit={u} rel_delta_tol={tolname}", tags)
+    if not refused and empty_ok is True and elist:
+        ctx.fail(case, "pairs-although-none-exist", f"delta={float(delta)} unit={u} rel_delta_tol={tolname}: ends {elist[:8]}", tags)
 
 
 def prefix(xs):
@@ -712,6 +865,42 @@ def fgrid_cases(ctx, r, L, INC):
         yield c
 
 
+def rpe_cases(ctx, r, L, INC):
+    """the class route metrics.RPE(...).process_data on exact-grid trajectories: tolerances 0, values hit
+    exactly, 0.05, 0.1 and omitted (= default 0.1); all units; both pairing modes; both trajectories"""
+    th = ctx.thorough
+    TOLS = [0.0, 0.0, 0.0, 0.25, 0.5, 1.0, 0.05, 0.1, None]
+    for _ in range(450 if not th else 4000):
+        n = r.randint(2, 8)
+        lens = [r.choice(L + [1, 1, 2]) for _ in range(n - 1)]
+        incs = [r.choice(INC + [1, 1, 2]) for _ in range(n - 1)]
+        rk = [r.randint(0, 15)]
+        for x in incs:
+            rk.append(rk[-1] + x)
+        base = {"kind": "grid", "fn": "delta", "via": "rpe", "pos": grid_positions(r, lens), "rk": rk, "axis": r.randint(0, 2)}
+        for u in ("m", "rad", "deg", "f"):
+            allp = r.random() < 0.65
+            t = r.choice(TOLS)
+            c = {**base, "unit": u, "all": allp, "from_ref": r.random() < 0.5, "t": 0.1 if t is None else t}
+            if t is None:
+                c["t_omitted"] = True
+            if u == "m":
+                c["delta"] = r.choice(half_grid(r, min(sum(lens), 12) + 1, 30))
+            elif u == "f":
+                c["delta"] = float(r.randint(1, n))
+            else:
+                du = r.choice(half_grid(r, 8.5, 30))
+                if u == "rad":
+                    c.update({"delta": du * np.pi / 8, "dm": str(Fraction(du))})
+                    if r.random() < 0.6:
+                        c = snap_angle_delta(r, c)
+                else:
+                    c["delta"] = du * 22.5
+            yield c
+    yield {"kind": "grid", "fn": "delta", "via": "rpe", "unit": "other", "all": False, "from_ref": False,
+           "pos": grid_positions(r, [1, 1, 1]), "delta": 1.0, "t": 0.1}
+
+
 def gen_cases(ctx):
     r = ctx.rng
     th = ctx.thorough
@@ -795,6 +984,7 @@ def gen_cases(ctx):
         incs = [r.choice(INC + [1, 1, 2]) for _ in range(n - 1)]
         yield from angle_cases(incs, half_grid(r, 9, 2))
     yield from fgrid_cases(ctx, r, L, INC)
+    yield from rpe_cases(ctx, r, L, INC)
     for u in ("other",):
         yield {"kind": "grid", "fn": "delta", "unit": u, "all": False, "pos": grid_positions(r, [1, 1, 1]), "delta": 1.0, "t": 0.1}
     # ---- random stream
